@@ -5,6 +5,7 @@ import (
 	"crypto/elliptic"
 	"crypto/sha256"
 	"fmt"
+	"os"
 	"runtime"
 	"sync"
 	"sync/atomic"
@@ -260,13 +261,18 @@ func checkMultisigCase(c MultisigCase, o *vt.Obs) error {
 		wg.Wait()
 		runtime.GOMAXPROCS(prev)
 	}()
+	// A saved case is replayed without rapid; scheduling is not part of the case, so a replay repeats much more often.
+	mul := 1
+	if os.Getenv("VERIF_REPLAY") != "" {
+		mul = 40
+	}
 	calls := 0
 	for _, p := range c.Procs {
 		if p < 1 || p > 64 {
 			continue
 		}
 		runtime.GOMAXPROCS(p)
-		for r := 0; r < c.Reps && r < 8; r++ {
+		for r := 0; r < c.Reps*mul && r < 8*mul; r++ {
 			got := vm.CheckMultisigPar(elliptic.P256(), digest[:], pkeys, sigs)
 			calls++
 			if got != want {
